@@ -144,21 +144,27 @@ let err_name (w : n) : string =
   | 1 -> "character_range_is_reversed" | 2 -> "nested-space" | 3 -> "table-index" | 4 -> "limit"
   | 5 -> "invalid_string_or_bracket_expression" | 6 -> "invalid_character_class" | k -> "err" ^ string_of_int k
 
+let show_polls = ref false
 let print_event (e : event) =
   match e with
   | EvAction (id, d) -> Printf.printf "A%d@%d " (int_of_n id) (int_of_n d)
   | EvCapture (id, d, st, _, text) -> Printf.printf "C%d@%d(%d,%s) " (int_of_n id) (int_of_n d) (int_of_n st) (hex text)
   | EvPred ((id, k), sz) -> Printf.printf "P%d.%d@%d " (int_of_n id) (int_of_n k) (int_of_n sz)
   | EvHandler ((id, r), lab, idx, sz, inc) -> Printf.printf "H%d.%d(%s,%d,%d,%d) " (int_of_n id) (int_of_n r) (hex lab) (int_of_n idx) (int_of_n sz) (int_of_n inc)
-  | EvDrain _ | EvPoll _ -> ()
+  | EvPoll _ -> if !show_polls then print_string "POLL "
+  | EvDrain _ -> ()
 
+let more_sources = ref false
 let budget = ref 200000
 let trace = ref false
 
+let last_state : mstate option ref = ref None
+let last_res = ref ""
 let run_input (caseno : int) (tag : string) (inhex : string) (prog : sinstr list) (s0 : mstate) =
   let t = Lazy.force ucd in
   let steps = ref 0 and h = ref 0 in
   let finish res (s : mstate) fix_mr =
+    last_state := Some s; last_res := res;
     let mr = if fix_mr then N.max s.mr s.sr else s.mr in
     Printf.printf "case %d run %s %s res=%s sr=%Lu mr=%Lu steps=%d trace=%x log=" caseno tag inhex res (i64_of_n s.sr) (i64_of_n mr) !steps !h;
     List.iter print_event (List.rev s.log);
@@ -187,7 +193,7 @@ let run_input (caseno : int) (tag : string) (inhex : string) (prog : sinstr list
            | BadVariant -> finish "throw:std:St18bad_variant_access" s' true
            | BadOpcode -> finish "throw:invalid_opcode" s' true
            | OutOfRange -> finish "throw:std:St12out_of_range" s' true
-           | Terminate -> Printf.printf "case %d run %s %s res=terminate steps=%d\n" caseno tag inhex !steps
+           | Terminate -> last_state := None; last_res := "terminate"; Printf.printf "case %d run %s %s res=terminate steps=%d\n" caseno tag inhex !steps
            | BadIndex -> finish "stuck:table-index" s' false)
     end in
   go s0
@@ -218,7 +224,42 @@ let spec_line (caseno : int) (inhex : string) (g : grammar) =
               print_newline ()
         end)
 
+(* environment semantics: specE = what Spec/PegEnv.v (proved to be what the machine does) says; specP = what the
+   property demands (a failing expression leaves the symbol table alone) *)
+let spec_env_lines (caseno : int) (inhex : string) (g : grammar) =
+  let t = Lazy.force ucd in
+  let space = (match g.g_space with Some e -> desugar e | None -> default_space_expr) in
+  match compile_defs t space [] g.g_defs with
+  | Err _ -> ()
+  | OK rt ->
+    (match link_layout t space rt g.g_start with
+     | Err _ -> ()
+     | OK (sk, s) ->
+        let in_frag = (s.l_lrec = []) && fragE sk && List.for_all (fun (r, _) -> fragE (rt_get rt r).r_body) s.l_addrs in
+        if not in_frag then Printf.printf "case %d specE %s n/a\n" caseno inhex
+        else begin
+          let inp = unhex inhex in
+          let show tag o =
+            (match o with
+             | None -> Printf.printf "case %d %s %s diverged\n" caseno tag inhex
+             | Some (FailE (f, sy)) ->
+                 Printf.printf "case %d %s %s res=0 mr=%d log= syms=" caseno tag inhex (int_of_n f);
+                 List.iter (fun x -> Printf.printf "%s," x) (List.sort compare (List.map (fun (k, vs) -> str_of_name k ^ "=" ^ String.concat "" (List.map (fun v -> hex v ^ "/") vs)) sy));
+                 print_newline ()
+             | Some (SuccE (j, tr, f, sy)) ->
+                 Printf.printf "case %d %s %s res=1 sr=%d mr=%d log=" caseno tag inhex (int_of_n j) (int_of_n (N.max f j));
+                 List.iter (function
+                     | TrAct id -> Printf.printf "A%d " (int_of_n id)
+                     | TrCap (id, st, sz) -> Printf.printf "C%d(%d,%s) " (int_of_n id) (int_of_n st) (hex (firstnN sz (skipnN st inp)))) tr;
+                 print_string "syms=";
+                 List.iter (fun x -> Printf.printf "%s," x) (List.sort compare (List.map (fun (k, vs) -> str_of_name k ^ "=" ^ String.concat "" (List.map (fun v -> hex v ^ "/") vs)) sy));
+                 print_newline ()) in
+          show "specE" (pegE_eval t inp (rules_of rt s) (nat_of_int !spec_fuel) [] (top_pexp sk g.g_start) N0 []);
+          show "specP" (pegP_eval t inp (rules_of rt s) (nat_of_int !spec_fuel) [] (top_pexp sk g.g_start) N0 [])
+        end)
+
 let with_spec = ref false
+let with_spec_env = ref false
 let do_grammar (caseno : int) (line : string) =
   match parse_sx line with
   | Lst (Atom "grammar" :: items) ->
@@ -243,7 +284,48 @@ let do_grammar (caseno : int) (line : string) =
                 | Lst (Atom "input" :: rest) ->
                     let inhex = (match rest with [Atom h] -> h | _ -> "-") in
                     run_input caseno "sv" inhex code (init_state (unhex inhex) [] false [] []);
-                    if !with_spec then spec_line caseno inhex g
+                    if !more_sources then begin
+                      run_input caseno "str" inhex code (init_state (unhex inhex) [] false [] []);
+                      (* std::istream through readsource: one delivery of the whole text (nothing at all when it is empty) *)
+                      run_input caseno "ist" inhex code (init_state_with [] (if inhex = "-" then [] else [unhex inhex]) true false [] [])
+                    end;
+                    if !with_spec then spec_line caseno inhex g;
+                    if !with_spec_env then spec_env_lines caseno inhex g
+                | Lst (Atom "history" :: steps) ->
+                    (* parses on one parser: every parse starts from reset_state of the state the previous one ended in;
+                       the model follows the history up to the first injected exception / nested parse *)
+                    let prev = ref (init_state_with [] [] false false [] []) in
+                    let alive = ref true in
+                    List.iteri (fun k st ->
+                        match st with
+                        | Lst (Atom "p" :: rest) when !alive ->
+                            let inhex = (match rest with [Atom h] -> h | _ -> "-") in
+                            let inp = unhex inhex in
+                            let s0 = enqueue inp (reset_state !prev) in
+                            let fresh = init_state_with s0.buf [] false false s0.conds s0.syms in
+                            run_input caseno (Printf.sprintf "h%dp" (k + 1)) inhex code s0;
+                            (match !last_state with Some s -> prev := s | None -> alive := false);
+                            if !last_res = "diverged" then alive := false;
+                            (* std::terminate ends the implementation's history process at once *)
+                            if !last_res <> "terminate" then run_input caseno (Printf.sprintf "f%dp" (k + 1)) inhex code fresh
+                        | _ -> alive := false) steps
+                | Lst (Atom "lines" :: pieces) ->
+                    let hs = List.map atom pieces in
+                    let n = List.length hs in
+                    show_polls := true;
+                    let prev = ref (init_state_with [] (List.map unhex hs) true true [] []) in
+                    let first = ref true and stop = ref false in
+                    for k = 1 to n + 1 do
+                      if not !stop then begin
+                        let s0 = if !first then !prev else reset_state !prev in
+                        first := false;
+                        run_input caseno (Printf.sprintf "i%d" k) (if k <= n then List.nth hs (k - 1) else "-") code s0;
+                        (match !last_state with
+                         | Some s -> prev := s; if !last_res <> "1" && s.pending = [] then stop := true
+                         | None -> stop := true)
+                      end
+                    done;
+                    show_polls := false
                 | Lst (Atom "chunks" :: pieces) ->
                     let hs = List.map atom pieces in
                     let all = if hs = [] then "-" else String.concat "|" hs in
@@ -254,7 +336,7 @@ let do_grammar (caseno : int) (line : string) =
 
 let caseno = ref 0
 let () =
-  Array.iter (fun a -> if a = "--trace" then trace := true else if a = "--spec" then with_spec := true else if String.length a > 9 && String.sub a 0 9 = "--budget=" then budget := int_of_string (String.sub a 9 (String.length a - 9))) Sys.argv;
+  Array.iter (fun a -> if a = "--trace" then trace := true else if a = "--sources" then more_sources := true else if a = "--spec" then with_spec := true else if a = "--spec-env" then with_spec_env := true else if String.length a > 9 && String.sub a 0 9 = "--budget=" then budget := int_of_string (String.sub a 9 (String.length a - 9))) Sys.argv;
   try
     while true do
       let line = input_line stdin in
